@@ -196,7 +196,24 @@ func (b *Built) Finalize() {
 		}
 	}
 	b.Rows = rows
+	b.drift()
 	b.applyProps()
+}
+
+// drift lets the items marked so move on to other fields now that their cells exist; nobody tells the cells.
+func (b *Built) drift() {
+	for j := range b.Header {
+		if b.Header[j].Drifts() {
+			b.Header[j].Mutate(*b.Header[j].Spec().Pre)
+		}
+	}
+	for i := range b.Cells {
+		for j := range b.Cells[i] {
+			if b.Cells[i][j].Drifts() {
+				b.Cells[i][j].Mutate(*b.Cells[i][j].Spec().Pre)
+			}
+		}
+	}
 }
 
 // FinalizeFromCallbacks does what Finalize does, but from inside the render: the application registers a
@@ -236,6 +253,7 @@ func (b *Built) FinalizeFromCallbacks() {
 	})
 	b.T.RegisterPropertyCallback(b.T, tabular.CB_AT_RENDER_PRECELL, tabular.CB_ON_CELL, cb)
 	b.Rows = b.T.AllRows()
+	b.drift()
 	b.applyProps()
 }
 
